@@ -618,6 +618,24 @@ def _set_method(ex, bm, recv, name, args, kwargs):
         if name == 'remove' and ex.branch(z3.Not(z3.Select(mem, x)), exceptional=True): ex.raise_exc('KeyError')
         m2, c2, fct = T.set_update(mem, card, x, False); ex.assume(fct)
         ex.assign(bm.recv_node, V(recv.ty, (m2, c2))); return NONE
+    if name == 'update' and len(args) == 1:
+        a = args[0]
+        if isinstance(a, E.IterV): a = ex.materialize(a)
+        a = ex.val(a)
+        items = None
+        if isinstance(a.ty, TTuple): items = list(a.t)
+        elif isinstance(a.ty, TSeq) and z3.is_int_value(z3.simplify(a.t[0])): items = [seq_get(a, z3.IntVal(i_)) for i_ in range(z3.simplify(a.t[0]).as_long())]
+        if items is not None:      # a fixed number of elements: one `add` each
+            m2, c2 = mem, card
+            for it_ in items:
+                m2, c2, fct = T.set_update(m2, c2, pack(coerce(it_, ety)), True); ex.assume(fct)
+            ex.assign(bm.recv_node, V(recv.ty, (m2, c2))); return NONE
+        if isinstance(a.ty, TSet):
+            b = coerce(a, recv.ty); x_ = z3.Const('su!', mem.sort().domain())
+            m2 = z3.Lambda([x_], z3.Or(z3.Select(mem, x_), z3.Select(b.t[0], x_))); c2 = fresh('card', z3.IntSort())
+            ex.assume(z3.And(c2 >= card, c2 >= b.t[1], c2 <= card + b.t[1]))
+            ex.assign(bm.recv_node, V(recv.ty, (m2, c2))); return NONE
+        raise Unsupported('set.update with %r' % a.ty)
     if name == 'copy': return recv
     if name == 'clear':
         e0 = coerce(V(TTuple([]), []), recv.ty)
